@@ -128,11 +128,11 @@ UNITS = {
     # astronomy
     "c": ("299792458", d(length=1, time=-1), "0", "exact"),
     "Msun": ("1.98841e30", mass, "0", "astro"), "Rsun": ("6.957e8", length, "0", "astro"),
-    "Lsun": ("3.828e26", power, "0", "astro"), "Tsun": ("5772", temp, "0", "conv"),
+    "Lsun": ("3.828e26", power, "0", "astro"), "Tsun": ("5772", temp, "0", "astro"),
     "Zsun": ("1", none, "0", "conv"), "Zsun_angr": ("1", none, "0", "conv"),
     "Zsun_aspl": ("1", none, "0", "conv"), "Zsun_feld": ("1", none, "0", "conv"),
     "Zsun_lodd": ("1", none, "0", "conv"),
-    "Mjup": ("1.89813e27", mass, "0", "astro"), "Mearth": ("5.9722e24", mass, "0", "conv"),
+    "Mjup": ("1.89813e27", mass, "0", "astro"), "Mearth": ("5.9722e24", mass, "0", "astro"),
     "Rjup": ("6.9911e7", length, "0", "astro"), "Rearth": ("6.371e6", length, "0", "astro"),
     "AU": ("149597870700", length, "0", "codata"),
     "ly": ("299792458*31557600", length, "0", "codata"),
@@ -141,7 +141,7 @@ UNITS = {
     "degree": ("pi/180", angle, "0", "exact"), "arcmin": ("pi/180/60", angle, "0", "exact"),
     "arcsec": ("pi/180/3600", angle, "0", "exact"), "mas": ("pi/180/3600000", angle, "0", "exact"),
     "hourangle": ("pi/12", angle, "0", "exact"), "sr": ("1", d(angle=2), "0", "exact"),
-    "lat": ("-pi/180", angle, "90", "conv"), "lon": ("pi/180", angle, "-180", "conv"),
+    "lat": ("-pi/180", angle, "90", "exact"), "lon": ("pi/180", angle, "-180", "exact"),
     "rpm": ("2*pi/60", d(angle=1, time=-1), "0", "exact"), "rev": ("2*pi", angle, "0", "exact"),
     "spat": ("4*pi", d(angle=2), "0", "exact"), "gradian": ("pi/200", angle, "0", "exact"),
     # misc
